@@ -15,7 +15,7 @@ def run_case_harness(ctx, exe, args, env=None, timeout=3600):
     return core.parse_cases(p.stdout)
 
 
-def correspond(ctx, cases, what, search=None, kind_of=lambda c: c["tag"].split()[1] if len(c["tag"].split()) > 1 else "case"):
+def correspond(ctx, cases, what, search=None, kind_of=lambda c: c["tag"].split()[1] if len(c["tag"].split()) > 1 else "case", normalize=None):
     """Gate 2 (model == implementation) and gate 3 (property oracle on the implementation's output)."""
     reqs = [c for c in cases if c["req"]]
     t0 = time.time()
@@ -23,6 +23,8 @@ def correspond(ctx, cases, what, search=None, kind_of=lambda c: c["tag"].split()
     mism = []
     for c, a in zip(reqs, ans):
         c["model"] = a
+        if normalize:
+            a = normalize(a, c)
         if a.strip() != c["exp"].strip():
             mism.append(c)
     propfail = [c for c in cases if not c["prop"].startswith("ok")]
